@@ -12,7 +12,10 @@
 #include <foonathan/memory/allocator_storage.hpp>
 #include <foonathan/memory/deleter.hpp>
 #include <foonathan/memory/fallback_allocator.hpp>
+#include <foonathan/memory/memory_pool.hpp>
+#include <foonathan/memory/memory_pool_collection.hpp>
 #include <foonathan/memory/memory_resource_adapter.hpp>
+#include <foonathan/memory/memory_stack.hpp>
 #include <foonathan/memory/segregator.hpp>
 #include <foonathan/memory/smart_ptr.hpp>
 #include <foonathan/memory/std_allocator.hpp>
@@ -580,10 +583,55 @@ namespace
         K_try_alloc_array,
         K_dealloc,
         K_typed,
+        K_deep,
         K__count
     };
     const char* names[K__count] = {"alloc_node", "alloc_array", "try_alloc_node", "try_alloc_array",
-                                   "dealloc", "typed"};
+                                   "dealloc", "typed", "deep"};
+
+    // tracker of the deep-tracking histories: node/array events and block growth/shrinking
+    struct DeepEv
+    {
+        enum Kind
+        {
+            node_alloc,
+            array_alloc,
+            node_dealloc,
+            array_dealloc,
+            growth,
+            shrink
+        } kind;
+        void*  p;
+        size_t count, size, align;
+    };
+    struct DeepTracker
+    {
+        std::vector<DeepEv>* ev;
+        void on_node_allocation(void* p, std::size_t s, std::size_t a) noexcept
+        {
+            ev->push_back({DeepEv::node_alloc, p, 1, s, a});
+        }
+        void on_array_allocation(void* p, std::size_t c, std::size_t s, std::size_t a) noexcept
+        {
+            ev->push_back({DeepEv::array_alloc, p, c, s, a});
+        }
+        void on_node_deallocation(void* p, std::size_t s, std::size_t a) noexcept
+        {
+            ev->push_back({DeepEv::node_dealloc, p, 1, s, a});
+        }
+        void on_array_deallocation(void* p, std::size_t c, std::size_t s, std::size_t a) noexcept
+        {
+            ev->push_back({DeepEv::array_dealloc, p, c, s, a});
+        }
+        void on_allocator_growth(void* p, std::size_t s) noexcept
+        {
+            ev->push_back({DeepEv::growth, p, 1, s, 0});
+        }
+        void on_allocator_shrinking(void* p, std::size_t s) noexcept
+        {
+            ev->push_back({DeepEv::shrink, p, 1, s, 0});
+        }
+    };
 
     struct LiveA
     {
@@ -1088,6 +1136,250 @@ namespace
             }
         }
 
+
+        //=== deep tracking: tracked_block_allocator / deeply_tracked_allocator over a leaf ===//
+        // one self-contained history per op; the tracker must see every traits-level operation once,
+        // with the pointer and parameters of the call, and every block the arena takes from / returns
+        // to the leaf (deeply tracked: between the end of construction and the start of destruction,
+        // as documented) with the address and size of the leaf call
+        unsigned n_deep = 0, n_deep_growth = 0, n_deep_shrink = 0;
+        template <class A, bool Deep, int Shape /*0 pool, 1 collection, 2 stack*/, class Make>
+        void deep_history(const char* tag, const Op& op, size_t node, Make make)
+        {
+            auto&               slab = Slab::get();
+            std::vector<DeepEv> ev, want;
+            DeepTracker         tr{&ev};
+            size_t              log_begin = slab.log().size();
+            std::unique_ptr<A>  a(make(tr));
+            size_t              log_ctor = slab.log().size();
+            using T = fm::allocator_traits<A>;
+            struct L
+            {
+                void*  p;
+                size_t count, size, align;
+            };
+            std::vector<L> live;
+            unsigned       steps = 4 + op.b % 150;
+            uint32_t       x     = op.c * 2654435761u + op.a * 40503u + 1;
+            for (unsigned i = 0; i < steps; ++i)
+            {
+                x          = x * 1664525u + 1013904223u;
+                unsigned r = (x >> 16) % 16;
+                if (i == steps / 2 && (op.a / 8) % 2)
+                {
+                    std::unique_ptr<A> b(new A(std::move(*a)));
+                    a = std::move(b); // the moved-from object dies here
+                    continue;
+                }
+                if (r < 10 || live.empty())
+                {
+                    L l;
+                    l.count = r % 3 == 0 ? 2 + (x >> 8) % 3 : 1;
+                    if (Shape == 0)
+                    {
+                        l.size  = node;
+                        l.align = 8;
+                    }
+                    else if (Shape == 1)
+                    {
+                        l.size  = 1 + (x >> 10) % node;
+                        l.align = 1;
+                    }
+                    else
+                    {
+                        l.size  = 1 + (x >> 10) % 200;
+                        l.align = size_t(1) << ((x >> 5) % 5);
+                    }
+                    try
+                    {
+                        if (l.count > 1)
+                        {
+                            l.p = T::allocate_array(*a, l.count, l.size, l.align);
+                            want.push_back({DeepEv::array_alloc, l.p, l.count, l.size, l.align});
+                        }
+                        else
+                        {
+                            l.p = T::allocate_node(*a, l.size, l.align);
+                            want.push_back({DeepEv::node_alloc, l.p, 1, l.size, l.align});
+                        }
+                        live.push_back(l);
+                    }
+                    catch (std::bad_alloc&)
+                    {
+                    }
+                }
+                else
+                {
+                    size_t k = Shape == 2 ? live.size() - 1 : (x >> 8) % live.size();
+                    L      l = live[k];
+                    live.erase(live.begin() + long(k));
+                    if (l.count > 1)
+                    {
+                        T::deallocate_array(*a, l.p, l.count, l.size, l.align);
+                        want.push_back({DeepEv::array_dealloc, l.p, l.count, l.size, l.align});
+                    }
+                    else
+                    {
+                        T::deallocate_node(*a, l.p, l.size, l.align);
+                        want.push_back({DeepEv::node_dealloc, l.p, 1, l.size, l.align});
+                    }
+                }
+            }
+            while (!live.empty())
+            {
+                L l = live.back();
+                live.pop_back();
+                if (l.count > 1)
+                {
+                    T::deallocate_array(*a, l.p, l.count, l.size, l.align);
+                    want.push_back({DeepEv::array_dealloc, l.p, l.count, l.size, l.align});
+                }
+                else
+                {
+                    T::deallocate_node(*a, l.p, l.size, l.align);
+                    want.push_back({DeepEv::node_dealloc, l.p, 1, l.size, l.align});
+                }
+            }
+            if constexpr (Shape == 2)
+            {
+                // blocks acquired inside a raii scope go to the cache when it ends and back to the leaf
+                // with shrink_to_fit(), all while the tracker is attached
+                auto& st = a->get_allocator();
+                {
+                    fm::memory_stack_raii_unwind<typename A::allocator_type> u(st);
+                    for (unsigned k = 0; k < 2 + op.c % 4; ++k)
+                        try
+                        {
+                            void* p = T::allocate_node(*a, 150 + 10 * k, 8);
+                            want.push_back({DeepEv::node_alloc, p, 1, 150 + 10 * k, 8});
+                        }
+                        catch (std::bad_alloc&)
+                        {
+                        }
+                }
+                if (op.a % 3)
+                    st.shrink_to_fit();
+            }
+            size_t log_pre_dtor = slab.log().size();
+            a.reset();
+            size_t log_end = slab.log().size();
+            // block events from the leaf's call log
+            std::vector<DeepEv> blocks_want, blocks_got, user_got;
+            for (size_t i = Deep ? log_ctor : log_begin; i < (Deep ? log_pre_dtor : log_end); ++i)
+            {
+                auto& e = slab.log()[i];
+                if (e.owner != env.leaves[3].owner)
+                    continue;
+                bool al = e.kind == vf::UpCall::alloc_node || e.kind == vf::UpCall::alloc_array;
+                blocks_want.push_back({al ? DeepEv::growth : DeepEv::shrink, e.addr, 1, e.count * e.size, 0});
+            }
+            for (auto& e : ev)
+                (e.kind >= DeepEv::growth ? blocks_got : user_got).push_back(e);
+            auto same = [](const std::vector<DeepEv>& g, const std::vector<DeepEv>& w, std::string& why) {
+                for (size_t i = 0; i < g.size() && i < w.size(); ++i)
+                    if (g[i].kind != w[i].kind || g[i].p != w[i].p || g[i].count != w[i].count
+                        || g[i].size != w[i].size || g[i].align != w[i].align)
+                    {
+                        why = "event " + std::to_string(i) + ": got kind " + std::to_string(g[i].kind) + " size "
+                              + std::to_string(g[i].size) + " count " + std::to_string(g[i].count) + " align "
+                              + std::to_string(g[i].align) + ", expected kind " + std::to_string(w[i].kind)
+                              + " size " + std::to_string(w[i].size) + " count " + std::to_string(w[i].count)
+                              + " align " + std::to_string(w[i].align)
+                              + (g[i].p != w[i].p ? " (different address)" : "");
+                        return false;
+                    }
+                if (g.size() != w.size())
+                {
+                    why = std::to_string(g.size()) + " events, expected " + std::to_string(w.size());
+                    return false;
+                }
+                return true;
+            };
+            std::string why;
+            if (slab.last_error())
+                fail(std::string(tag) + "-leaf", slab.last_error());
+            else if (!same(user_got, want, why))
+                fail(std::string(tag) + "-user-events", why);
+            else if (!same(blocks_got, blocks_want, why))
+                fail(std::string(tag) + "-block-events", why);
+            ++n_deep;
+            for (auto& e : blocks_want)
+                (e.kind == DeepEv::growth ? n_deep_growth : n_deep_shrink) += 1;
+        }
+
+        void op_deep(const Op& op)
+        {
+            using L3 = Leaf<3>;
+            using GB = fm::growing_block_allocator<L3>;
+            LeafState*          l3      = &env.leaves[3];
+            static const size_t nodes[] = {8, 16, 24, 40, 64};
+            size_t              node    = nodes[(op.a / 16) % 5];
+            size_t              nblk    = 8 + (op.a / 80) % 9;
+            switch (op.a % 8)
+            {
+            case 0:
+            case 1:
+            {
+                using P = fm::memory_pool<fm::node_pool, GB>;
+                using A = fm::deeply_tracked_allocator<DeepTracker, P>;
+                deep_history<A, true, 0>("deep-pool", op, node, [&](DeepTracker tr) {
+                    return new A(fm::make_deeply_tracked_allocator<P>(tr, node, P::min_block_size(node, nblk),
+                                                                       L3(l3)));
+                });
+                break;
+            }
+            case 2:
+            {
+                using P = fm::memory_pool_collection<fm::node_pool, fm::log2_buckets, GB>;
+                using A = fm::deeply_tracked_allocator<DeepTracker, P>;
+                deep_history<A, true, 1>("deep-collection", op, 64, [&](DeepTracker tr) {
+                    return new A(fm::make_deeply_tracked_allocator<P>(tr, size_t(64), size_t(1024 + 64 * nblk),
+                                                                       L3(l3)));
+                });
+                break;
+            }
+            case 3:
+            case 4:
+            {
+                using A = fm::deeply_tracked_allocator<DeepTracker, fm::memory_stack<GB>>;
+                deep_history<A, true, 2>("deep-stack", op, 0, [&](DeepTracker tr) {
+                    return new A(tr, typename A::allocator_type(size_t(128 + 32 * nblk), L3(l3)));
+                });
+                break;
+            }
+            case 5:
+            {
+                using B = fm::tracked_block_allocator<DeepTracker, GB>;
+                using P = fm::memory_pool<fm::node_pool, B>;
+                using A = fm::tracked_allocator<DeepTracker, P>;
+                deep_history<A, false, 0>("tracked-block-pool", op, node, [&](DeepTracker tr) {
+                    return new A(tr, P(node, P::min_block_size(node, nblk), tr, L3(l3)));
+                });
+                break;
+            }
+            case 6:
+            {
+                // a RawAllocator in the place of the block allocator: make_block_allocator_t
+                using B = fm::tracked_block_allocator<DeepTracker, L3>;
+                using S = fm::memory_stack<B>;
+                using A = fm::tracked_allocator<DeepTracker, S>;
+                deep_history<A, false, 2>("tracked-block-stack", op, 0, [&](DeepTracker tr) {
+                    return new A(tr, S(size_t(128 + 32 * nblk), tr, L3(l3)));
+                });
+                break;
+            }
+            default:
+            {
+                using B = fm::tracked_block_allocator<DeepTracker, GB>;
+                using P = fm::memory_pool_collection<fm::node_pool, fm::identity_buckets, B>;
+                using A = fm::tracked_allocator<DeepTracker, P>;
+                deep_history<A, false, 1>("tracked-block-collection", op, 32, [&](DeepTracker tr) {
+                    return new A(tr, P(size_t(32), size_t(2048 + 64 * nblk), tr, L3(l3)));
+                });
+            }
+            }
+        }
+
         Verdict run()
         {
             static const size_t gaps[] = {64, 16, 256, 4096};
@@ -1158,6 +1450,12 @@ namespace
                     else
                         ++ci.noops;
                     break;
+                case K_deep:
+                    if (prop == "C09")
+                        op_deep(op);
+                    else
+                        ++ci.noops;
+                    break;
                 default:
                     ++ci.noops;
                 }
@@ -1181,7 +1479,7 @@ namespace
                 ci.nontrivial = n_default_full >= 1 && n_default_again >= 1 && n_rel >= 2;
             else
                 ci.nontrivial = (c ? false : true)
-                                && ((n_array2 >= 1 && n_ok >= 3 && (n_below == 0 || n_above >= 1)) || n_typed >= 1);
+                                && ((n_array2 >= 1 && n_ok >= 3 && (n_below == 0 || n_above >= 1)) || n_typed >= 1 || (n_deep >= 1 && n_deep_growth >= 1));
             if (n_default_full)
                 ci.classes.insert("default-ran-full");
             if (n_default_again)
@@ -1194,6 +1492,13 @@ namespace
                 ci.classes.insert("typed-helper");
             if (n_typed_throw)
                 ci.classes.insert("typed-helper-constructor-failure");
+            if (n_deep)
+                ci.classes.insert("deep-tracking");
+            if (n_deep_growth)
+                ci.classes.insert("deep-tracking-growth");
+            if (n_deep_shrink)
+                ci.classes.insert("deep-tracking-shrinking");
+            ci.counters["deep_histories"] += n_deep;
             ci.counters["requests_ok"] += n_ok;
             ci.counters["releases"] += n_rel;
             ci.counters["typed"] += n_typed;
@@ -1215,10 +1520,11 @@ namespace
             out.max_ops = 80;
             bool c9     = property == "C09";
             out.kinds   = {{names[0], 8}, {names[1], 5}, {names[2], 6}, {names[3], 4}, {names[4], 10},
-                           {names[5], c9 ? 4u : 0u}};
+                           {names[5], c9 ? 4u : 0u}, {names[6], c9 ? 2u : 0u}};
             out.rule = c9 ? "a composition of depth >= 1 served >= 3 requests incl. an array with count >= 2 (and, for "
                             "segregators, a request above the threshold), or a typed helper (std_allocator / "
-                            "allocate_unique / allocate_shared / unique_base_ptr) round trip" :
+                            "allocate_unique / allocate_shared / unique_base_ptr) round trip, or a deep-tracking history "
+                            "(tracked_block_allocator / deeply_tracked_allocator) in which the arena grew" :
                             "the default allocator of a fallback composition ran full at least once, served again "
                             "later, and >= 2 releases were routed";
             return true;
